@@ -171,6 +171,7 @@ pub fn scenarios(thorough: bool) -> Vec<Scenario> {
         &[Op::Unstage(0), Op::Snapshot(0), Op::Reopen(0)],
     ));
     v.push(trio_scenario("trio", if thorough { 7 } else { 5 }));
+    v.extend(cross_scenarios(thorough));
     v
 }
 
@@ -185,6 +186,9 @@ pub fn run(thorough: bool) {
     for pool in if thorough { vec![1usize, 2, 16] } else { vec![1usize, 4] } {
         for sc in scenarios(thorough) {
             // quick tier: the larger pool is exercised on the conflict-heavy scenarios only
+            if pool != 1 && sc.name.starts_with("x-") {
+                continue;
+            }
             if !thorough && pool != 1 && !["pair-conflict", "pair-rootkinds", "trio"].contains(&sc.name.as_str()) {
                 continue;
             }
